@@ -50,13 +50,13 @@ REQUIRED = {
     "C04": {"adjacent_matches": 200, "match_at_offset_0": 200, "match_at_end": 200, "cases_without_match": 200, "xsd_dialect": 200},
     "C12": {"anchor_in_alternative": 500, "flag_insensitivity_checked": 500, "oracle_true": 500, "oracle_false": 500},
     "C13": {"literal_present_several_times": 100, "literal_absent": 100, "extra_flag_ignored_checked": 500},
-    "C15": {"replacement_valid": 200, "replacement_invalid": 200, "more_than_9_groups": 100, "input_several_matches": 100, "input_no_match": 100},
+    "C15": {"group_participation_judged_by_reference": 500, "replacement_valid": 200, "replacement_invalid": 200, "more_than_9_groups": 100, "input_several_matches": 100, "input_no_match": 100},
     "C16": {"oracle_nullable": 500, "oracle_not_nullable": 500, "literal_patterns": 50},
     "C17": {"flag_gate": 50, "gate_or_invalid": 500, "xsd_accepted_valid": 500, "dialects_compared": 500, "literal_anchor_checked": 100},
     "C18": {"cross_object_probes": 50, "block_table_init_races": 1, "iterators_kept_alive_across_calls": 100, "overlapping_call_pairs": 1, "fresh_results_cross_checked_with_reference": 100},
     "C19": {"with_backref": 1000, "groups_judged": 500},
     "C20": {"spans_compared": 500},
-    "C11": {"case_swap_twins": 1000, "monotonic_checked": 200, "oracle_true": 500, "oracle_false": 500},
+    "C11": {"literal_case_blind_matches": 500, "literal_oracle_false": 200, "case_swap_twins": 1000, "monotonic_checked": 200, "oracle_true": 500, "oracle_false": 500},
     "C06": {"inside_bounds": 1000, "longer_inputs_for_zero_width_runs": 1000, "zero_width_iterations_observed": 1000},
     "C14": {"whitespace_inserted": 1000, "base_rejected": 100},
     "C09": {"membership_tests": 100000, "quantified_equivalence_checked": 100, "raw_hyphen_at_group_edge": 200},
